@@ -284,6 +284,18 @@ fn finish(ctx: &Ctx, prop: &props::Prop, mut report: Report) -> i32 {
 		eprintln!("MACHINERY-ERROR: cannot write evidence: {e}");
 		return 2;
 	}
+	// a compact per-tier record next to it (the file above is overwritten by the other tier)
+	{
+		let mut small = ev.clone();
+		if let Some(c) = small.get_mut("coverage").and_then(|c| c.as_object_mut()) {
+			if let Some(sm) = c.get_mut("samples").and_then(|s| s.as_array_mut()) {
+				sm.truncate(3);
+			}
+		}
+		let rdir = evdir.join("runs");
+		let _ = std::fs::create_dir_all(&rdir);
+		let _ = std::fs::write(rdir.join(format!("{}.{}.json", prop.id, ctx.tier.name())), serde_json::to_string_pretty(&small).unwrap());
+	}
 	// vacuity guard
 	if report.evaluations == 0 || report.distinct_nontrivial < 2 {
 		eprintln!("MACHINERY-ERROR: vacuous run (evaluations={}, distinct_nontrivial={})", report.evaluations, report.distinct_nontrivial);
